@@ -39,8 +39,8 @@ from common import run_driver  # noqa: E402
 from props import c16 as M  # noqa: E402
 
 ID = 'C17'
-LEAN_MODULES = ['Py65.Props.C17', 'Py65.Proofs.MonRunGenEq', 'Py65.Props.C17g']
-NAMESPACES = ['Py65.Props.C17', 'Py65.Proofs.MonRunGenEq', 'Py65.Props.C17g']
+LEAN_MODULES = ['Py65.Props.C17', 'Py65.Proofs.MonRunGenEq', 'Py65.Props.C17g', 'Py65.Props.C17h']
+NAMESPACES = ['Py65.Props.C17', 'Py65.Proofs.MonRunGenEq', 'Py65.Props.C17g', 'Py65.Props.C17h']
 # library helpers (CPython behaviour modelled in lean/Py65/Model/*Rt*.lean ...) that the generated code of these
 # modules calls, derived by scanning the Lean sources (harness/rtscan.py); validated against CPython on every run
 import rtcheck  # noqa: E402
@@ -61,6 +61,12 @@ EXPECTED_THEOREMS = [
     'Py65.Props.C17g.run_variants_agree', 'Py65.Props.C17g.bp_numbers_fresh',
     'Py65.Props.C17g.delete_bad_number_unchanged', 'Py65.Props.C17g.bp_deleted_inert',
     'Py65.Props.C17g.show_breakpoints_lists_active',
+    # composition with C13h (documented cycles over histories) and C05h (closure over histories), the step being a
+    # GENERATED device (lean/Py65/Props/C17h.lean, notes/compose2.md)
+    'Py65.Props.C17h.run_stops', 'Py65.Props.C17h.run_cycles', 'Py65.Props.C17h.run_cycles_6502',
+    'Py65.Props.C17h.run_cycles_65c02_exact', 'Py65.Props.C17h.run_cycles_65org16', 'Py65.Props.C17h.run_closed',
+    'Py65.Props.C17h.run_closed_8bit', 'Py65.Props.C17h.goto_cycles_closed', 'Py65.Props.C17h.return_cycles_closed',
+    'Py65.Props.C17h.step_cycles_closed',
 ]
 RULE = ('one evaluation = one goto/return/step command typed into a real Monitor after a breakpoint history, '
         'on a program the bare device finishes within the fuel.  non-trivial = the run changed at least one '
@@ -92,6 +98,10 @@ TRUSTED = [
     'pyFmtD / pyFmtUX (%d, %04X), MonCmd.shlexSplit, PyStr.pyIntL (int), AddrParser.numberL / labelFor; '
     'mpu.step() is the parameter `step` (instantiated with the generated device step by the driver); '
     'console.noncanonical_mode / restore_mode are skipped by name; do_disassemble is an uninterpreted printer',
+    'C17h (composition, proof only): the generated _run / do_goto / do_return / do_step instantiated with the GENERATED '
+    'device steps (Hist.Dev.step), composed with C13h.cycles_history / cycles_history_65c02_exact / '
+    'cycles_monotone_prefix (documented cycle table Spec.Cycles as the oracle) and C05h.closed_history; nothing new is '
+    'modelled',
 ]
 ASSUMPTIONS = [
     'programs terminate: the bare device reaches the stop condition within the fuel (4000 instructions); '
@@ -108,6 +118,12 @@ ASSUMPTIONS = [
     'mpu.step()), so the GenEq theorems need no hypothesis; the device step itself, shlex.split, int(), the address '
     'parser and the %-conversions remain library behaviour (named helpers), the monitor-side peek mem[pc] is the '
     'pure read St.mem (as in the hand model)',
+    'C17h run_cycles / run_closed: the hypotheses of C13h / C05h and no others -- the start state is well-formed '
+    '(Hist.Inv: WF, and a 6502 / 65Org16 is not waiting; for goto the parsed address is an address of the device); '
+    '65Org16: the opcode cells the run executes hold bytes 0..255 (CellsOK; above 255 the real step() raises '
+    'IndexError); documented count on the 65C02: no BRA $80 executed (NoBra) -- run_cycles_65c02_exact needs no '
+    'hypothesis and gives documented - #BRA; 6502: no side condition (run_cycles_6502).  Well-formedness along the run '
+    'is proved, not assumed',
 ]
 
 FUEL = 4000
